@@ -187,6 +187,26 @@ def check_probe(mc, d, m, mods):
             return "reservation_missing", "chip %r: busy cores %r are not reserved (reserved %r)" % (xy, sorted(busy - set(count)), sorted(count))
         if any(v > 1 for v in count.values()):
             return "reservation_overlap", "chip %r: cores %r reserved more than once" % (xy, sorted(p for p, v in count.items() if v > 1))
+    # -- a description is a value of its own: editing one chip's entry (a user blacklisting a flaky link, a core) changes neither
+    #    the other chips of the same description nor what the next probe of the unchanged machine reports
+    with_links = [xy for xy in sorted(live) if si[xy].working_links]
+    if with_links:
+        xy0 = with_links[0]
+        gone = sorted(si[xy0].working_links)[0]
+        si[xy0].working_links.discard(gone)
+        si[xy0].core_states[:] = []
+        for xy in sorted(live):
+            if xy != xy0:
+                wl = set(l for l in Links if (d["chips"][xy]["links"] >> int(l)) & 1)
+                if set(si[xy].working_links) != wl or [int(s_) for s_ in si[xy].core_states] != d["chips"][xy]["states"][:d["chips"][xy]["n"]]:
+                    return "working_links", "after link %s was removed from chip %r's entry of the description (and its core states emptied), chip %r's entry reads links %r states %r; the machine has %r" % (
+                        gone.name, xy0, xy, sorted(int(l) for l in si[xy].working_links), [int(s_) for s_ in si[xy].core_states], sorted(int(l) for l in wl))
+        si2 = mc.get_system_info()
+        for xy in sorted(live):
+            wl = set(l for l in Links if (d["chips"][xy]["links"] >> int(l)) & 1)
+            if set(si2[xy].working_links) != wl:
+                return "working_links", "probing the unchanged machine again after an earlier description was edited reports links %r for chip %r; the machine has %r" % (
+                    sorted(int(l) for l in si2[xy].working_links), xy, sorted(int(l) for l in wl))
     return None
 
 
